@@ -24,7 +24,59 @@ def op? (s : String) : Option Op :=
 def showRet : Ret → String
   | .none => "-" | .hit v e => s!"hit:{v}:{e}" | .miss => "miss" | .len n => s!"len:{n}"
 
-/-- `cache <configured size> <ops>`; the minimum size is the one read from the source -/
+/-! `concurrent_map.Map` lines -/
+
+def act? (s : String) : Option Act :=
+  if s == "d" then some .del
+  else if s == "o" then some .delOdd
+  else if s.startsWith "a" then (s.drop 1).toNat?.map .setAdd
+  else none
+
+def mop? (s : String) : Option MOp :=
+  match s.splitOn ":" with
+  | ["s", k, v, vs] => do some (.base (.store (← k.toNat?) (← v.toNat?) 0 0 (← nats? vs)))
+  | ["s", k, v] => do some (.base (.store (← k.toNat?) (← v.toNat?) 0 0 []))
+  | ["g", k] => do some (.base (.get (← k.toNat?) 0))
+  | ["d", k] => do some (.del (← k.toNat?))
+  | ["f"] => some (.base .flush)
+  | ["l"] => some (.base .len)
+  | ["r", m, r, a] => do some (.range ⟨← m.toNat?, ← r.toNat?, ← act? a⟩)
+  | ["t", k, a] => do some (.tas (← k.toNat?) (← act? a))
+  | _ => none
+
+def mops? (s : String) : Option (List MOp) := if s == "-" then some [] else (s.splitOn ",").mapM mop?
+
+/-- results of the trailing `post` operations of a run -/
+def lastRets (c : Cache) (ops : List MOp) (post : Nat) : List String :=
+  let rs := (c.mrun sumOf ops).2
+  (rs.drop (rs.length - post)).map showRet
+
+/-! `lru.LRU` / `concurrent_lru` lines -/
+
+def lop? (s : String) : Option LOp :=
+  match s.splitOn ":" with
+  | ["a", k, v] => do some (.add (← k.toNat?) (← v.toNat?))
+  | ["g", k] => do some (.get (← k.toNat?))
+  | ["d", k] => do some (.del (← k.toNat?))
+  | ["p"] => some .pop
+  | ["c", m, r] => do some (.clean (← m.toNat?) (← r.toNat?))
+  | ["f"] => some .flush
+  | ["l"] => some .len
+  | _ => none
+
+def showLRet : LRet → String
+  | .evicted l => "ev:" ++ ".".intercalate (l.map (fun e => s!"{e.key}={e.val}"))
+  | .hit v => s!"hit:{v}" | .miss => "miss" | .len n => s!"len:{n}" | .none => "-"
+
+/-- does an update through `LRU.Add` always write the value (read from the source) -/
+def lruStores : Bool := Gen.Facts.c11LruUpdateStoresFirst == some true
+
+/-- `cache <configured size> <ops>`; the minimum size is the one read from the source.
+`map <size> <ops>`: `concurrent_map.NewMapCache(size)`.
+`maprace <size> <pre> <pass> <competitors> <post>`: a `RangeDo` pass and operations of other goroutines (at most one
+per shard) that overlap it; every shard operation being one critical section, the outcome is that of one of the two orders: per `post`
+result both are printed (`a|b`) when they differ.
+`lru <shards> <max per shard> <ops>`. -/
 def handle : List String → String
   | ["cache", size, ops] =>
     match size.toInt?, (ops.splitOn ",").mapM op? with
@@ -32,6 +84,22 @@ def handle : List String → String
       let c := Cache.new (Gen.Facts.c11MinSize.getD 0) size
       ";".intercalate ((c.run sumOf ops).2.map showRet)
     | _, _ => "bad-op"
+  | ["map", size, ops] =>
+    match size.toInt?, mops? ops with
+    | some size, some ops => ";".intercalate (((Cache.new 0 size).mrun sumOf ops).2.map showRet)
+    | _, _ => "bad-op"
+  | ["maprace", size, pre, pass, comp, post] =>
+    match size.toInt?, mops? pre, mop? pass, mops? comp, mops? post with
+    | some size, some pre, some pass, some comp, some post =>
+      let c := Cache.new 0 size
+      let a := lastRets c (pre ++ [pass] ++ comp ++ post) post.length
+      let b := lastRets c (pre ++ comp ++ [pass] ++ post) post.length
+      ";".intercalate ((a.zip b).map (fun (x, y) => if x == y then x else x ++ "|" ++ y))
+    | _, _, _, _, _ => "bad-op"
+  | ["lru", n, max, ops] =>
+    match n.toNat?, max.toNat?, (ops.splitOn ",").mapM lop? with
+    | some n, some max, some ops => ";".intercalate (((SLru.new n max).run lruStores sumOf ops).2.map showLRet)
+    | _, _, _ => "bad-op"
   | _ => "bad-op"
 
 end Driver.C11
